@@ -4,7 +4,7 @@ use crate::{cover, harness, str_harness, note};
 use pasfmt_core::lang::*;
 use pasfmt_core::rules::optimising_line_formatter::verif_hooks_olf::multiline_strings as ms;
 
-const CAP: usize = 48;
+const CAP: usize = 96;
 
 struct Buf {
     b: [u8; CAP],
@@ -241,50 +241,50 @@ str_harness! { fn c12_m5_two_literals_one_line_hard() unwind(20) { m5_body(true,
 
 /// M3: lexer side: an odd run of >= 3 quotes followed by a line break opens a multi-line literal
 /// which ends at the first later occurrence of the same run; without one it is Unterminated to
-/// the end of input (real `text_literal`, memchr stubbed by naive loops).
-fn m3_body(n: usize) {
+/// the end of input. Real `text_literal` on three quotes + line break (LF or CR, per instance) +
+/// `n` symbolic bytes (the opener is concrete: a symbolic quote count makes every
+/// `bytes().skip(offset)` of the literal scanner symbolic and exhausts memory).
+fn m3_body(n: usize, cr: bool) {
     use pasfmt_core::defaults::lexer::verif_hooks_lexer as lx;
-    let text = sym_text(b"'''", n, &[b'\'', b'\n', b'\r', b'a', b' '], b"");
-    let b = text.as_bytes();
+    let mut arr = [0u8; 16];
+    arr[0] = b'\'';
+    arr[1] = b'\'';
+    arr[2] = b'\'';
+    arr[3] = if cr { b'\r' } else { b'\n' };
+    let mut k = 0;
+    while k < n {
+        arr[4 + k] = pick(&[b'\'', b'\n', b'a', b' ']);
+        k += 1;
+    }
+    let len = 4 + n;
+    #[cfg(kani)]
+    let text = unsafe { std::str::from_utf8_unchecked(&arr[..len]) };
+    #[cfg(not(kani))]
+    let text = std::str::from_utf8(&arr[..len]).unwrap();
+    let b = &arr[..len];
     let (end, ty, _) = lx::text_literal(text, 1, false, false, None);
-    // reference
-    let mut q = 0;
-    while q < b.len() && b[q] == b'\'' {
-        q += 1;
+    // reference: first occurrence of three quotes at or after position 3
+    let mut found = usize::MAX;
+    let mut s = 3;
+    while s + 3 <= len {
+        if found == usize::MAX && b[s] == b'\'' && b[s + 1] == b'\'' && b[s + 2] == b'\'' {
+            found = s;
+        }
+        s += 1;
     }
-    let multiline_open = q >= 3 && q % 2 == 1 && q < b.len() && (b[q] == b'\n' || b[q] == b'\r');
-    if multiline_open {
-        // first occurrence of q quotes at or after position q
-        let mut found = usize::MAX;
-        let mut s = q;
-        while s + q <= b.len() {
-            let mut all = true;
-            let mut k = 0;
-            while k < q {
-                all &= b[s + k] == b'\'';
-                k += 1;
-            }
-            if all {
-                found = s;
-                break;
-            }
-            s += 1;
-        }
-        if found != usize::MAX {
-            assert!(ty == RawTokenType::TextLiteral(TextLiteralKind::MultiLine) && end == found + q);
-        } else {
-            assert!(ty == RawTokenType::TextLiteral(TextLiteralKind::Unterminated) && end == b.len());
-        }
+    if found != usize::MAX {
+        assert!(ty == RawTokenType::TextLiteral(TextLiteralKind::MultiLine) && end == found + 3, "multi-line literal does not end at the first closing run");
     } else {
-        assert!(ty != RawTokenType::TextLiteral(TextLiteralKind::MultiLine));
-        assert!(end <= b.len() && end >= 1);
+        assert!(ty == RawTokenType::TextLiteral(TextLiteralKind::Unterminated) && end == len, "unterminated multi-line literal must run to the end of input");
     }
-    cover!(ty == RawTokenType::TextLiteral(TextLiteralKind::MultiLine), "multiline");
+    cover!(found != usize::MAX, "terminated");
+    cover!(found == usize::MAX, "unterminated");
 }
-macro_rules! m3 { ($($name: ident => ($u: expr; $n: expr)),*) => {$(
-    harness! { fn $name() unwind($u) stubs(log::max_level => crate::common::stub_log_max_level_off, std::fmt::format => crate::common::stub_fmt_format) { m3_body($n) } }
+macro_rules! m3 { ($($name: ident => ($u: expr; $n: expr, $cr: expr)),*) => {$(
+    harness! { fn $name() unwind($u) stubs(log::max_level => crate::common::stub_log_max_level_off, std::fmt::format => crate::common::stub_fmt_format) { m3_body($n, $cr) } }
 )*}}
-m3! { c12_m3_lexer_multiline_len5 => (11; 5), c12_m3_lexer_multiline_len7 => (13; 7), c12_m3_lexer_multiline_len4 => (10; 4) }
+m3! { c12_m3_lexer_multiline_lf_n3 => (10; 3, false), c12_m3_lexer_multiline_cr_n4 => (11; 4, true), c12_m3_lexer_multiline_lf_n5 => (12; 5, false),
+     c12_m3_lexer_multiline_lf_n7 => (14; 7, false), c12_m3_lexer_multiline_cr_n8 => (15; 8, true) }
 
 #[cfg(kani)]
 #[kani::proof]
@@ -354,7 +354,7 @@ m1a! { c12_m1a_lines_custom_len4 => (7; 4), c12_m1a_lines_custom_len5 => (8; 5),
 // LF / CRLF / CR and mixed terminators, blank, short, over-indented and non-conforming lines,
 // tab/space bases, 5-quote delimiters.
 macro_rules! m1c { ($($name: ident => ($u: expr; $lit: expr, $h: expr, $iw: expr, $cw: expr, $crlf: expr)),* $(,)?) => {$(
-    str_harness! { fn $name() unwind($u) { m1_check($lit, $h, $iw, $cw, $crlf, if stringify!($name).as_bytes()[8] == b'i' { b"!ignored" } else { b"concrete" }) } }
+    harness! { fn $name() unwind($u) stubs(std::string::String::push_str => crate::common::stub_push_str, std::string::String::push => crate::common::stub_push, std::string::String::with_capacity => crate::common::stub_string_with_capacity, std::string::String::reserve => crate::common::stub_string_reserve, log::max_level => crate::common::stub_log_max_level_off, core::slice::memchr::memchr => crate::common::stub_memchr, core::slice::memchr::memrchr => crate::common::stub_memrchr, str::repeat => crate::common::stub_str_repeat_bounded) { m1_check($lit, $h, $iw, $cw, $crlf, if stringify!($name).as_bytes()[8] == b'i' { b"!ignored" } else { b"concrete" }) } }
 )*}}
 m1c! {
     c12_m1c_lf_basic => (24; "\'\'\'\n  ab\n  \'\'\'", false, 2, 4, false),
